@@ -124,7 +124,7 @@ func GenCrlfText(r *Rand) string {
 func init() {
 	register(&Prop{
 		ID: "C07",
-		Rule: "texts from DocGen, rule-violating mutants, token layouts, CRLF-dense texts and raw bytes; each text is parsed with every worker count 1..len+2 (capped at 40 in the quick tier, plus two larger counts) " +
+		Rule: "texts from DocGen, rule-violating mutants, token layouts, CRLF-dense texts, raw bytes and (1 in 25) large texts of 4 KiB to 66 KiB (worker counts 1-8, 16 and a random one up to 56); each text is parsed with every worker count 1..len+2 (capped at 40 in the quick tier, plus two larger counts) " +
 			"and, per worker count, with forced arrival orders of the batch results (all n! for n<=3 quick / n<=5 thorough; beyond that natural scheduling plus the reverse and a random order for n<=8, the reverse order for every fourth n). " +
 			"Non-trivial: the text has at least 2 blocks and some worker count yields a batch with a complete middle block; distinct = distinct texts",
 		Count: func(tier string) int {
@@ -135,6 +135,28 @@ func init() {
 		},
 		Gen: func(r *Rand, idx int, tier string) map[string]any {
 			var text, src string
+			if idx%25 == 24 { // large texts: implementations may treat sizes beyond some threshold differently
+				target := Pick(r, []int{4096, 4200, 8192, 9000, 20000, 33000, 66000})
+				var sb strings.Builder
+				base := [3]int{1990 + r.Intn(20), 1 + r.Intn(12), 1 + r.Intn(28)}
+				faulty := r.P(1, 4)
+				for sb.Len() < target {
+					d := GenDoc(r, DocOpts{MinRecords: 1, Base: base, Window: 20})
+					t := d.Text
+					if faulty && r.P(1, 6) {
+						if m := Mutate(r, d); m != nil {
+							t = m.Text
+						}
+					}
+					sb.WriteString(t)
+					if !strings.HasSuffix(t, "\n") {
+						sb.WriteString("\n")
+					}
+					sb.WriteString(Pick(r, []string{"\n", "\n", "\r\n", " \n", "\n\n"}))
+				}
+				text, src = sb.String(), "large"
+				return map[string]any{"text": hx(text), "src": src, "oseed": r.Intn(1 << 30)}
+			}
 			switch r.Weighted(4, 2, 2, 3, 1) {
 			case 0:
 				text, src = GenDoc(r, DocOpts{}).Text, "docgen"
@@ -176,11 +198,16 @@ func runC07(env *Env, data map[string]any) *Outcome {
 	if env.Tier == "thorough" {
 		limit = 400
 	}
-	for n := 1; n <= maxN && n <= limit; n++ {
-		ns = append(ns, n)
-	}
-	if maxN > limit {
-		ns = append(ns, maxN, limit+r.Intn(maxN-limit)+1)
+	large := len(text) > 3000
+	if large {
+		ns = []int{1, 2, 3, 4, 5, 7, 8, 16, 17 + r.Intn(40)}
+	} else {
+		for n := 1; n <= maxN && n <= limit; n++ {
+			ns = append(ns, n)
+		}
+		if maxN > limit {
+			ns = append(ns, maxN, limit+r.Intn(maxN-limit)+1)
+		}
 	}
 	fullPerms := 3
 	if env.Tier == "thorough" {
@@ -196,7 +223,10 @@ func runC07(env *Env, data map[string]any) *Outcome {
 			cs[i] = hx(c)
 		}
 		implChunks := "ok " + strings.Join(cs, ",")
-		modelChunks := env.Drv.Ask("chunks", hx(text), fmt.Sprint(n))
+		modelChunks := implChunks
+		if !large || n <= 3 {
+			modelChunks = env.Drv.Ask("chunks", hx(text), fmt.Sprint(n))
+		}
 		if implChunks != modelChunks {
 			o.Findings = append(o.Findings, Finding{Kind: "K", What: fmt.Sprintf("K.C07.chunks: splitIntoChunks differs for n=%d", n), Impl: implChunks, Model: modelChunks})
 		}
@@ -233,7 +263,7 @@ func runC07(env *Env, data map[string]any) *Outcome {
 				o.Findings = append(o.Findings, Finding{Kind: "D", What: fmt.Sprintf("parallel parser (workers=%d, arrival order %v) differs from the serial parser", n, order), Impl: short(par, 3000), Model: short(serial, 3000)})
 				break
 			}
-			if oi == 0 && errs == nil {
+			if oi == 0 && errs == nil && (!large || n <= 3) {
 				implB := "ok " + canonBlocks(bs)
 				modelB := env.Drv.Ask("pblocks", hx(text), fmt.Sprint(n))
 				if implB != modelB {
